@@ -41,7 +41,9 @@ impl<'a> VersionChunkIter<'a> {
         };
 
         let zeros = source.chars().take_while(|c| *c == '0').count();
-        let value = source.parse::<usize>().ok()?;
+        // A number that does not fit is the largest value; `version_sort` tells such numbers
+        // apart by their digits.
+        let value = source.parse::<usize>().unwrap_or(usize::MAX);
 
         Some(VersionChunk::Number {
             value,
@@ -162,14 +164,18 @@ pub(crate) fn version_sort(a: &str, b: &str) -> std::cmp::Ordering {
                     VersionChunk::Number {
                         value: va,
                         zeros: lza,
-                        ..
+                        source: sa,
                     },
                     VersionChunk::Number {
                         value: vb,
                         zeros: lzb,
-                        ..
+                        source: sb,
                     },
-                ) => match va.cmp(&vb) {
+                ) => match va.cmp(&vb).then_with(|| {
+                    // Equal values have the same digits unless both were too large to fit.
+                    let (da, db) = (&sa[lza..], &sb[lzb..]);
+                    da.len().cmp(&db.len()).then_with(|| da.cmp(db))
+                }) {
                     std::cmp::Ordering::Equal => {
                         if lza == lzb {
                             continue;
